@@ -110,8 +110,15 @@ impl Engine for ModEngine {
                 7 => format!("mod children {}", idx_tok(&a)),
                 _ => "mod dump".to_string(),
             };
-            // keep our shadow module in sync so that later indices stay mostly valid
-            apply_shadow(&mut m, &op);
+            // keep our shadow module in sync so that later indices stay mostly valid (the shadow
+            // uses the crate under test: a panic there must not take the generator down)
+            let prev = std::panic::take_hook();
+            std::panic::set_hook(Box::new(|_| {}));
+            let mut copy = m.clone();
+            if std::panic::catch_unwind(std::panic::AssertUnwindSafe(|| apply_shadow(&mut copy, &op))).is_ok() {
+                m = copy;
+            }
+            std::panic::set_hook(prev);
             ops.push(op);
         }
         ops.push("mod walkcheck".into());
